@@ -229,6 +229,16 @@ theorem failed_unpack_has_no_result (std : Stdlib) (o : Opts) (ty : Ty) (old : G
     (h : unpack std o ty old cfg = .err e) : ∀ v, unpack std o ty old cfg ≠ .ok v := by
   intro v hv; rw [h] at hv; cases hv
 
+/-- what a struct tag option does, in the vocabulary of util.go -/
+def tagEffect (t : TagOpts) : String :=
+  if t.squash then "squash" else if t.ignore then "ignore"
+  else (Extracted.configHandlingNames[t.handling.code]?).getD "?"
+
+/-- the struct tag options the model understands are exactly the cases of the switch in util.go parseTags, with the same
+effect (regenerated from the source on every run: a new or renamed tag option breaks this) -/
+theorem tag_options_match_source :
+    Extracted.tagOptionWords.all (fun w => tagEffect (parseTags ("f," ++ w.1)).2 == w.2) = true := by decide
+
 /-! ### the frame, recursively
 
 `FrameIn o ty old new v`: going from `old` to `new` under the setting `v`, everything the setting has nothing for is
